@@ -734,7 +734,7 @@ func genSession(t *rapid.T) Session {
 			s.Msgs = append(s.Msgs, M{Scs: uint32(chunk)})
 			continue
 		}
-		m := M{Type: rapid.SampledFrom([]uint8{8, 9, 18, 20, 3, 22}).Draw(t, "type"), Sid: rapid.SampledFrom([]uint32{0, 1, 1<<32 - 1}).Draw(t, "sid"), Fill: rapid.Uint64().Draw(t, "fill")}
+		m := M{Type: rapid.SampledFrom([]uint8{8, 9, 18, 20, 15, 22}).Draw(t, "type"), Sid: rapid.SampledFrom([]uint32{0, 1, 1<<32 - 1}).Draw(t, "sid"), Fill: rapid.Uint64().Draw(t, "fill")}
 		switch rapid.IntRange(0, 3).Draw(t, "tsk") {
 		case 0:
 			m.Ts = rapid.SampledFrom([]uint32{0, 0xFFFFFE, 0xFFFFFF, 0x1000000, 1<<31 - 1}).Draw(t, "tsc")
